@@ -393,7 +393,10 @@ class Checker:
         if not self.close(lk, ref_sim[0], scales[0]):
             self.fail('sum', sc, ref_sim[0], float(lk), {'through': 'calculate_likelihood'})
         self.same('derivatives', sc, whole, ref_sim, scales, {'per_row_source': 'get_value_and_derivatives(aggregation=False)'})
-        self.same('derivatives', sc, whole, ref_closed, [np.maximum(s, 1e-6 * np.max(s)) * 10 for s in scales],
+        # closed forms that are exactly 0 (probability 1: single available alternative) meet engine values of the size of a
+        # rounding error of the weighted terms: the floor of the scale is relative to the total weight, not to the entry
+        wsum = math.fsum(abs(sc['weight'][2](r)) for r in rows)
+        self.same('derivatives', sc, whole, ref_closed, [np.maximum(s, 1e-6 * max(float(np.max(s)), wsum, 1e-300)) * 10 for s in scales],
                   {'per_row_source': 'closed form'})
         # ---- scaled
         self.cases += 2
